@@ -2,6 +2,7 @@ import Driver.Json
 import Driver.Tree
 import Driver.History
 import Driver.Io
+import Driver.Totp
 /-!
 `kpdriver`: reads one JSON case per line on stdin, runs the Lean model (and, where it differs, the reference
 specification) on the case's inputs and prints one JSON line per case:
@@ -16,6 +17,8 @@ def dispatch (op : String) (j : Json) : R Json :=
   | "history" => opHistory j
   | "ioread" => opIoRead j
   | "iowrite" => opIoWrite j
+  | "totp" => opTotp j
+  | "selftest" => opSelfTest j
   | _ => throw s!"unknown op {op}"
 
 def handleLine (line : String) : String :=
